@@ -246,7 +246,8 @@ def dump(in_db, f, **options):
                 db.add_signal_defines("GenSigStartValue", 'FLOAT 0 100000000000')
                 
             if "GenSigStartValue" in db.signal_defines:
-                if signal.phys2raw(None) != 0:
+                # raw 0 has to be written too when it is not the physical 0 the reader assumes for a missing attribute
+                if signal.phys2raw(None) != 0 or (signal.initial_value != 0 and "GenSigStartValue" not in signal.attributes):
                     if db.signal_defines["GenSigStartValue"].defaultValue is None:
                         signal.add_attribute("GenSigStartValue", signal.phys2raw(None))
                         
